@@ -867,20 +867,10 @@ func (fr *Frame) opaqueID(v *GVal) *Term {
 }
 
 func (fr *Frame) intPtrsVal(x *Term) *Term {
-	ex := fr.ex
-	w := ex.p.w
-	// []*int -> VIntPtrs(present, vals, n): pointwise, via uninterpreted projections with element facts
-	ex.p.DeclareFun("pintPresent", []*Sort{x.S}, SArray(SInt, SBool))
-	ex.p.DeclareFun("pintVals", []*Sort{x.S}, SArray(SInt, SInt))
-	pp := App("pintPresent", SArray(SInt, SBool), x)
-	pv := App("pintVals", SArray(SInt, SInt), x)
+	w := fr.ex.p.w
+	// []*int -> VIntPtrs(p0, p1, p2, n): the three slots a slice node carries, element by element
 	arr := w.SlArr(x)
-	for i := int64(0); i < 3; i++ {
-		e := Select(arr, IntLit(i))
-		ex.addFact(Eq(Select(pp, IntLit(i)), Not(App("(_ is pnil)", SBool, e))))
-		ex.addFact(Implies(Not(App("(_ is pnil)", SBool, e)), Eq(Select(pv, IntLit(i)), App("pval", SInt, e))))
-	}
-	return App("VIntPtrs", SVal, pp, pv, w.SlLen(x))
+	return App("VIntPtrs", SVal, Select(arr, IntLit(0)), Select(arr, IntLit(1)), Select(arr, IntLit(2)), w.SlLen(x))
 }
 
 // typeAssert models x.(T).
@@ -949,22 +939,16 @@ func (fr *Frame) assertParts(x *Term, at types.Type) (ok, val, fresh *Term) {
 			return VIs("VArr", x), w.MkSlice(SVal, VArrOf(x), VLenOf(x), VArrNil(x)), nil
 		}
 		if es.S == "PInt" {
-			si := w.sliceSort(es)
-			ex.p.DeclareFun("pintSlice", []*Sort{SVal}, si.S)
-			r := App("pintSlice", si.S, x)
 			ok := VIs("VIntPtrs", x)
-			pp := App("vpp", SArray(SInt, SBool), x)
-			pv := App("vpv", SArray(SInt, SInt), x)
+			pt := w.pintSort()
 			n := App("vpn", SInt, x)
-			fs := []*Term{Eq(w.SlLen(r), n), Le(IntLit(0), n), Le(n, maxLen), Not(w.SlNil(r))}
-			// element facts are instantiated for the three slots a slice node has
-			for i := int64(0); i < 3; i++ {
-				e := Select(w.SlArr(r), IntLit(i))
-				fs = append(fs, Eq(Not(App("(_ is pnil)", SBool, e)), Select(pp, IntLit(i))),
-					Implies(Select(pp, IntLit(i)), Eq(App("pval", SInt, e), Select(pv, IntLit(i)))))
-			}
-			ex.addFact(Implies(And(fr.cur, ok), And(fs...)))
-			ex.p.assumptions["[]*int payloads have at most 3 modelled slots (slice nodes carry exactly 3)"] = true
+			arr := ConstArray(SArray(SInt, pt), mk("pnil", pt))
+			arr = Store(arr, IntLit(0), App("vp0", pt, x))
+			arr = Store(arr, IntLit(1), App("vp1", pt, x))
+			arr = Store(arr, IntLit(2), App("vp2", pt, x))
+			r := w.MkSlice(pt, arr, n, TFalse)
+			ex.addFact(Implies(And(fr.cur, ok), And(Le(IntLit(0), n), Le(n, IntLit(3)))))
+			ex.p.assumptions["[]*int payloads have at most 3 slots (slice nodes carry exactly 3; wfNode requires it)"] = true
 			return ok, r, nil
 		}
 	case *types.Map:
